@@ -190,6 +190,12 @@ void Instance::parse_stack_args(size_t argc, char* const* argv, size_t starting_
 
 bool Instance::setup_environment(unsigned int flags) {
     if (tx && !tx->vin.empty()) { // a transaction without inputs gives signature checks nothing to refer to
+        // parse_transaction assumes segwit v0 as soon as any input carries a witness; a signed input that has no
+        // witness of its own (a legacy input of a mixed transaction) is checked against the legacy digest
+        const size_t checked_input = txin_index > -1 ? txin_index : 0;
+        if (sigver == SigVersion::WITNESS_V0 && checked_input < tx->vin.size() && tx->vin[checked_input].scriptWitness.IsNull() && !tx->vin[checked_input].scriptSig.empty()) {
+            sigver = SigVersion::BASE;
+        }
         if (txin && txin_index > -1) {
             std::vector<CTxOut> spent_outputs;
             spent_outputs.emplace_back(txin->vout[txin_vout_index]);
